@@ -76,21 +76,52 @@ impl<'key, 'data> MultipartBuilder<'key, 'data> {
 
     /// Creates a `Multipart` to be used as a body.
     pub fn build(self) -> Result<Multipart<'data>> {
-        let mut mp = crate::multipart_crate::lazy::Multipart::new();
-        for (k, v) in self.text {
-            mp.add_text(k, v);
-        }
-        for file in self.files {
-            mp.add_stream(file.name, Cursor::new(file.file), file.filename, file.mime);
-        }
-        let prepared = mp.prepare().map_err::<IoError, _>(Into::into)?;
-        Ok(Multipart { data: prepared })
+        let text: Vec<_> = self.text.iter().map(|(k, v)| (k.to_string(), *v)).collect();
+        let files: Vec<_> = self
+            .files
+            .into_iter()
+            .map(|f| (f.name.to_owned(), f.file, f.filename.map(str::to_owned), f.mime))
+            .collect();
+        let data = prepare_fields(&text, &files, None)?;
+        Ok(Multipart {
+            data,
+            text,
+            files,
+            written: false,
+        })
     }
+}
+
+type TextField<'data> = (String, &'data str);
+type FileField<'data> = (String, &'data [u8], Option<String>, Option<Mime>);
+
+fn prepare_fields<'data>(
+    text: &[TextField<'data>],
+    files: &[FileField<'data>],
+    boundary: Option<&str>,
+) -> IoResult<crate::multipart_crate::lazy::PreparedFields<'data>> {
+    let mut mp = crate::multipart_crate::lazy::Multipart::new();
+    for (k, v) in text {
+        mp.add_text(k.clone(), *v);
+    }
+    for (name, file, filename, mime) in files {
+        mp.add_stream(name.clone(), Cursor::new(*file), filename.clone(), mime.clone());
+    }
+    match boundary {
+        Some(boundary) => mp.prepare_with_boundary(boundary),
+        None => mp.prepare(),
+    }
+    .map_err::<IoError, _>(Into::into)
 }
 
 /// A multipart form created using `MultipartBuilder`.
 pub struct Multipart<'data> {
     data: crate::multipart_crate::lazy::PreparedFields<'data>,
+    // The fields are kept so that the form can be written again, with the boundary already
+    // announced in the Content-Type header: a body is written once per redirect hop.
+    text: Vec<TextField<'data>>,
+    files: Vec<FileField<'data>>,
+    written: bool,
 }
 
 impl Body for Multipart<'_> {
@@ -99,6 +130,11 @@ impl Body for Multipart<'_> {
     }
 
     fn write<W: Write>(&mut self, mut writer: W) -> IoResult<()> {
+        if self.written {
+            let boundary = self.data.boundary().to_owned();
+            self.data = prepare_fields(&self.text, &self.files, Some(&boundary))?;
+        }
+        self.written = true;
         copy(&mut self.data, &mut writer)?;
         Ok(())
     }
